@@ -84,6 +84,34 @@ func init() {
 			},
 		})
 	}
+	// Restart of a running (and of a paused) worker with a context: the previous run's goroutines must end too
+	Register(&Scenario{
+		Name:  "restart-running/ctx",
+		Props: []string{"C18", "C14", "C01"},
+		Mode:  "NB", Quick: 1, Thorough: 2, Shards: 8,
+		Body: func(h *H) {
+			w := h.NewWorker(Plain, 2, varmq.WithContext(context.Background()))
+			q := w.Bind(Fifo, nil)
+			q.Add(0, AddOpt{})
+			h.Quiesce(true)
+			w.Restart()
+			q.Add(1, AddOpt{})
+			h.Quiesce(true)
+			w.Pause()
+			w.Restart()
+			q.Add(2, AddOpt{})
+			h.Quiesce(true)
+			if n := vrt.LiveLib(""); n > 1+2+1 {
+				h.viol("C18", "C18.cycle-growth", "more library goroutines are alive in a later run than belong to it:"+liveNames())
+			}
+			w.Stop()
+			h.Quiesce(true)
+			if n := vrt.LiveLib(""); n > 0 {
+				h.viol("C18", "C18.leak-after-stop", "goroutines still alive after Stop returned:"+liveNames())
+			}
+			h.End()
+		},
+	})
 	// the context is cancelled while a job is executing; the caller resumes the (then paused) worker before the job
 	// ends: the cancellation must still stop the worker, and it must never report Running while unable to process
 	Register(&Scenario{
